@@ -110,7 +110,8 @@ def pdesc(c):
     for i in range(2, len(c) - 1, 2):
         ops.append({1: "pool_malloc(%d)" % c[i + 1], 2: "pool_free(#%d)" % c[i + 1], 5: "pool_reset",
                     6: "[other thread: 5 x pool_malloc(%d), exits]" % c[i + 1]}.get(c[i], "?"))
-    return "%s pool, raw allocation #%d refused once: %s" % ("fixed" if c[0] else "growable", c[1], "; ".join(ops))
+    kind = ("fixed (2 MB buffer starting %d bytes above a 1 MB boundary)" % ((c[0] - 2) * 512)) if c[0] >= 2 else ("fixed" if c[0] else "growable")
+    return "%s pool, raw allocation #%d refused once: %s" % (kind, c[1], "; ".join(ops))
 
 
 def pool_oracle(c, toks):
@@ -120,7 +121,7 @@ def pool_oracle(c, toks):
         return int(toks[toks.index(k) + 1])
     fixed = c[0] != 0
     if val("CORRUPT"):
-        return ("pool-live-block-corrupted", "%s: a live block lost its contents after a refused raw allocation" % pdesc(c))
+        return ("pool-live-block-corrupted", "%s: a live block lost its contents" % pdesc(c))
     if val("OUTSIDE"):
         return ("pool-block-outside-raw-memory", "%s: a block lies outside the memory obtained from the pool's raw allocator" % pdesc(c))
     if val("OVERLAP"):
@@ -176,8 +177,25 @@ def run(ctx):
             base = [6, sz, 5, 0] + [1, sz] * 6 + [1, sz2] * 4 + [1, 3 << 20] + [1, sz] * 40
             for k in (-1, 1, 2, 3, 4):
                 cases.append([0, k] + base)
+    # directed: a FIXED pool over a 2 MB buffer that starts 0..16 KB above a 16 KB boundary is filled to exhaustion with large (39 KB / 8.1 KB) and small objects,
+    # holes are punched into the middle, then small objects (each size class needs a fresh 16 KB slab cut out of an unaligned hole) are requested
+    for w in range(ctx.scale(30, 400)):
+        off = rng.choice([0, 1, 2, 4, 5, 8, 12, 13, 16, 24, 31])            # x 512 bytes
+        big = rng.choice([39000, 40000, 39936, 33000, 50000])
+        ops = []
+        nal = 0
+        for i in range(rng.randint(50, 70)):
+            ops += [1, big if i % 3 else rng.choice([8129, 8200, 9000])]; nal += 1
+        holes = sorted(rng.sample(range(5, nal - 5), rng.randint(1, 4)))
+        for h in holes:
+            ops += [2, h]
+        for _ in range(rng.randint(1, 6)):
+            ops += [1, rng.choice([256, 64, 1000, 24, 4000, 8000])]; nal += 1
+        if rng.random() < 0.5:
+            ops += [2, holes[0] + 1, 1, big, 1, 100]
+        cases.append([2 + off, -1] + ops)
     ctx.rules.append("pool fault enumeration: random pool workloads (growable and fixed, with pool_reset), every index k=0..7 of the raw-allocation trace refused once, "
-                     "a second pool alive; predicate = live blocks intact, blocks inside own raw memory, pool_identify, every raw region returned exactly once, fixed pool single raw call, recovery after failure")
+                     "a second pool alive; fixed pools over a misaligned 2 MB buffer filled to exhaustion, holes punched, small objects requested; predicate = live blocks intact, blocks inside own raw memory, pool_identify, every raw region returned exactly once, fixed pool single raw call, recovery after failure")
     oracle_tie(ctx, "pool-faults", exe, ["pool"], cases, pool_oracle, describe=pdesc, bucket=lambda c: "pool fixed=%d failk=%d" % (c[0], c[1]), timeout=300)
     # --- real threads: foreign frees, thread exit with live blocks
     bad = 0
